@@ -128,32 +128,79 @@ static int rt_name_hazard(const char *n)
   if (rt_text_wirelen(n) > 255) {
     h |= RT_HAZ_OVER255;
   }
-  {
+  return h;
+}
+
+/* exact trigger of the escaped-dot finding: the text after an escaped dot of one name equals the
+ * whole text of another name of the record (checked on the spelling held by the record and on the
+ * spelling the parser produces) */
+#define RT_MAXNAMES 600
+typedef struct {
+  char  *txt[2 * RT_MAXNAMES];
+  size_t n;
+} rt_names_t;
+
+static void bld_name_text(vh_rng_t *r, const refdns_name_t *n, int style, char *out, size_t cap);
+
+static void rt_names_add(rt_names_t *ns, const char *t)
+{
+  refdns_name_t nm;
+  char          canon[1300];
+  if (t == NULL || ns->n + 2 > 2 * RT_MAXNAMES) {
+    return;
+  }
+  ns->txt[ns->n++] = strdup(t);
+  if (refdns_name_from_text(&nm, t) == 0 && nm.nlabels) {
+    bld_name_text(NULL, &nm, 0, canon, sizeof(canon));
+    if (strcmp(canon, t) != 0) {
+      ns->txt[ns->n++] = strdup(canon);
+    }
+  }
+}
+
+static int rt_names_escdot(rt_names_t *ns)
+{
+  size_t i, j;
+  int    hit = 0;
+  for (i = 0; i < ns->n && !hit; i++) {
     const char *p;
-    for (p = n; *p; p++) {
-      if (*p == '\\') {
-        if (p[1] == '.') {
-          h |= RT_HAZ_ESCDOT;
+    for (p = ns->txt[i]; *p && !hit; p++) {
+      if (*p != '\\') {
+        continue;
+      }
+      if (p[1] == '.') {
+        for (j = 0; j < ns->n; j++) {
+          if (j != i && strcmp(p + 2, ns->txt[j]) == 0) {
+            hit = 1;
+            break;
+          }
         }
-        if (p[1] >= '0' && p[1] <= '9' && p[2] && p[3]) {
-          p += 3;
-        } else if (p[1]) {
-          p++;
-        }
+      }
+      if (p[1] >= '0' && p[1] <= '9' && p[2] && p[3]) {
+        p += 3;
+      } else if (p[1]) {
+        p++;
       }
     }
   }
-  return h;
+  for (i = 0; i < ns->n; i++) {
+    free(ns->txt[i]);
+  }
+  ns->n = 0;
+  return hit;
 }
 
 static int rt_has_long_text(const ares_dns_record_t *rec)
 {
-  size_t i, k;
-  int    sec, h = 0;
+  static rt_names_t ns;
+  size_t            i, k;
+  int               sec, h = 0;
+  ns.n = 0;
   for (i = 0; i < ares_dns_record_query_cnt(rec); i++) {
     const char *n = NULL;
     if (ares_dns_record_query_get(rec, i, &n, NULL, NULL) == ARES_SUCCESS) {
       h |= rt_name_hazard(n);
+      rt_names_add(&ns, n);
     }
   }
   for (sec = ARES_SECTION_ANSWER; sec <= ARES_SECTION_ADDITIONAL; sec++) {
@@ -163,13 +210,18 @@ static int rt_has_long_text(const ares_dns_record_t *rec)
       const ares_dns_rr_key_t *keys;
       const char              *n = ares_dns_rr_get_name(rr);
       h |= rt_name_hazard(n);
+      rt_names_add(&ns, n);
       keys = ares_dns_rr_get_keys(ares_dns_rr_get_type(rr), &nk);
       for (k = 0; keys && k < nk; k++) {
         if (ares_dns_rr_key_datatype(keys[k]) == ARES_DATATYPE_NAME && keys[k] != ARES_RR_URI_TARGET) {
           h |= rt_name_hazard(ares_dns_rr_get_str(rr, keys[k]));
+          rt_names_add(&ns, ares_dns_rr_get_str(rr, keys[k]));
         }
       }
     }
+  }
+  if (rt_names_escdot(&ns)) {
+    h |= RT_HAZ_ESCDOT;
   }
   return h;
 }
@@ -519,7 +571,7 @@ static void bld_name_text(vh_rng_t *r, const refdns_name_t *n, int style, char *
   if (n->nlabels == 0) {
     /* "" is how the parser spells the root; "." is accepted too but is a different spelling
      * (the writer then remembers "." as a compressible name) */
-    snprintf(out, cap, "%s", style == 0 ? "" : vh_chance(r, 1, 2) ? "" : ".");
+    snprintf(out, cap, "%s", (style == 0 || r == NULL) ? "" : vh_chance(r, 1, 2) ? "" : ".");
     return;
   }
   if (style == 0) {
